@@ -376,6 +376,7 @@ def e2e_oracle(d):
     if len(chosen) != nd:
         return ("e2e-anomaly", "%d detections but %d decisions" % (nd, len(chosen)))
     w = {(a, b): z for a, b, z in pairs_all}
+    farok = set() if d.get("farok", "-") == "-" else set(tuple(int(x) for x in e.split(":")) for e in d["farok"].split(","))
     used = []
     value = 0
     for ds, ts in chosen:
@@ -388,6 +389,9 @@ def e2e_oracle(d):
             return ("not-one-to-one", "track %d continued by two detections in one call" % t)
         used.append(t)
         z = w.get((di, t))
+        if z is None and (di, t) in farok:
+            return ("out-of-reach-continued", "detection %d continues track %d although it is out of bounding-circle reach of the track's last box "
+                    "(Universal2DBox::too_far(detection, last predicted box) is true; only the chi-square gate admits the pair)" % (di, t))
         if z is None or z < thrz:
             return ("ungated-continued", "detection %d continues track %d but the pair does not pass the gate (weight %s, threshold %d)" % (di, t, z, thrz))
         value += z
@@ -498,6 +502,7 @@ def run(chk):
     # ---- end to end
     e2e_calls = 0
     e2e_nt = 0
+    e2e_far = 0
     e2e_problems = []
     cur_hist = None
     shadow_bad = 0
@@ -512,6 +517,8 @@ def run(chk):
                 shadow_bad += 1
                 continue
             r = e2e_oracle(d)
+            if d.get("farok", "-") != "-":
+                e2e_far += 1
             if r is not None:
                 e2e_problems.append((r[0], r[1], cur_hist, d))
             elif e2e_nontrivial(d):
@@ -527,12 +534,15 @@ def run(chk):
         "exhaustive_family_cases_checked_in_harness": exh_total,
         "predict_calls_checked": e2e_calls,
         "predict_calls_greedy_differs_from_optimal": e2e_nt,
-        "distinct_nontrivial": len(nontriv) + e2e_nt,
+        "predict_calls_with_out_of_reach_pair_admitted_by_chi_square_alone": e2e_far,
+        "distinct_nontrivial": len(nontriv) + e2e_nt + e2e_far,
         "rule": "SortVoting::winners on streams from integer weight matrices: exhaustive family (<=3 detections x <=3 tracks, every cell from "
                 "{absent, 0, thr-1, thr, thr+1, 2thr, 2thr+1} resp. the 5-value subset; all of them checked by the in-harness brute-force oracle, "
                 "a deterministic sample sent to the model), random up to 8x8 (grid and uniform weights, duplicates, None metrics, "
                 "declared sizes larger/smaller than the stream), and Sort::predict histories (crossing pairs, convoys, overlapping "
-                "parallel objects, random walkers; IoU and Mahalanobis). non-trivial = greedy row-by-row differs from the optimum, "
+                "parallel objects, random walkers, far-jumping small boxes; IoU and Mahalanobis, the latter also with loose Kalman "
+                "weights (position 1/20|0.3|1.0, velocity 1/160|0.1|1.0) so that the bounding-circle-reach clause decides). "
+                "non-trivial = greedy row-by-row differs from the optimum, or (predict) a pair out of circle reach that the chi-square gate alone admits, "
                 "or a weight within +-1 of thr, or an unmatched detection beside a continued one; distinct by the record text",
         "samples": [c["raw"][:300] for c in cases[:3]],
         "input_distribution": dict(hist),
@@ -569,6 +579,38 @@ def run(chk):
                 if bad:
                     h, d = h2, bad[0]
                     key, text = e2e_oracle(d)
+            # then drop whole calls / single detections while some call still fails with the same key (bounded effort)
+            def fails_hist(hh):
+                ls = [kv(l) for l in run_replay_lines([hh]) if l.startswith("e2e ")]
+                for x in ls:
+                    if int(x["shadow_bad"]) == 0:
+                        rr = e2e_oracle(x)
+                        if rr is not None and rr[0] == key:
+                            return x, rr
+                return None
+            budget = 150
+            changed = True
+            while changed and budget > 0:
+                changed = False
+                toks = h.split()
+                calls = [c.split(";") if c != "-" else [] for c in [t for t in toks if t.startswith("calls=")][0][6:].split("|")]
+                cands_h = []
+                for i in range(len(calls)):
+                    if len(calls) > 1:
+                        cands_h.append(calls[:i] + calls[i + 1:])
+                for i in range(len(calls)):
+                    for j in range(len(calls[i])):
+                        cands_h.append(calls[:i] + [calls[i][:j] + calls[i][j + 1:]] + calls[i + 1:])
+                for cc in cands_h:
+                    if budget <= 0:
+                        break
+                    budget -= 1
+                    hh = " ".join(t if not t.startswith("calls=") else "calls=" + "|".join(";".join(c) if c else "-" for c in cc) for t in toks)
+                    got = fails_hist(hh)
+                    if got is not None:
+                        h, (d, (key, text)) = hh, got
+                        changed = True
+                        break
         except (ValueError, IndexError, KeyError):
             pass
         chk.violation("C02:predict:" + key, text,
